@@ -82,8 +82,53 @@ def build(case):
     plain2 = EDXMLEvent(vals_perm, case['typ'], case['src'], None, None)
     elem = EventElement(case['values'], case['typ'], case['src'], case['parents'] or None, attd)
     elem2 = EventElement.create_from_event(plain2)
-    return etype, onto, {'EDXMLEvent': plain, 'EDXMLEvent/permuted-no-parents-no-attachments': plain2, 'EventElement': elem,
-                         'EventElement/from-permuted': elem2, 'ParsedEvent': parsed[0], 'ParsedEvent/permuted-xml': parsed[1]}
+    reps = {'EDXMLEvent': plain, 'EDXMLEvent/permuted-no-parents-no-attachments': plain2, 'EventElement': elem,
+            'EventElement/from-permuted': elem2, 'ParsedEvent': parsed[0], 'ParsedEvent/permuted-xml': parsed[1]}
+    # the same logical event reached through public mutators (assignment, add, copy_properties_from, move_properties_from,
+    # an object set taken from another event and extended afterwards), for each representation, and its write / parse round trip
+    names = list(case['values'])
+    first = {n: case['values'][n] for n in names[:len(names) // 2]}
+
+    def parse_one(doc):
+        got = []
+
+        class P(EDXMLPullParser):
+            def _parsed_event(self, e):
+                got.append(e)
+        P().parse(io.BytesIO(doc))
+        return got[0]
+
+    starts = {'EDXMLEvent': lambda: EDXMLEvent(first, case['typ'], case['src']),
+              'EventElement': lambda: EventElement(first, case['typ'], case['src']),
+              'ParsedEvent': lambda: parse_one(G.document([ont, G.event_xml(case['typ'], case['src'], [(n, v) for n, vs in first.items() for v in vs])]))}
+    for kind, start in starts.items():
+        ev = start()
+        for i, n in enumerate(names[len(names) // 2:]):
+            vs = case['values'][n]
+            how = (case['perm_seed'] + i) % 5
+            if how == 0:
+                ev.properties[n] = list(vs)
+            elif how == 1:
+                for v in vs:
+                    ev.properties[n].add(v)
+            elif how == 2:
+                ev.copy_properties_from(EDXMLEvent({'zz': list(vs)}, case['typ'], case['src']), {'zz': n})
+            elif how == 3:
+                ev.move_properties_from(EventElement({'zz': list(vs)}, case['typ'], case['src']), {'zz': n})
+            else:
+                other = EDXMLEvent({'zz': list(vs[:1])}, case['typ'], case['src'])
+                ev.properties[n] = other.properties['zz']
+                for v in vs[1:]:
+                    ev.properties[n].add(v)
+        reps[kind + '/built-by-mutators'] = ev
+        if kind != 'EDXMLEvent':
+            from edxml import EDXMLWriter
+            buf = io.BytesIO()
+            with EDXMLWriter(buf, validate=False) as w:
+                w.add_ontology(onto)
+                w.add_event(ev)
+            reps['ParsedEvent/round-trip-of-built-' + kind] = parse_one(buf.getvalue())
+    return etype, onto, reps
 
 
 def spec_preimage(case):
@@ -163,12 +208,44 @@ def gen_memo_case(rng):
             ops.append(('get',))
         elif k < 0.75:
             ops.append(('set', rng.choice(names), rng.random() < 0.5))
-        elif k < 0.9:
+        elif k < 0.85:
             ops.append(('add', rng.choice(names), rng.random() < 0.5))
-        else:
+        elif k < 0.92:
             ops.append(('del', rng.choice(names)))
+        else:
+            # public operations that only read the definitions: they must leave the hashed set alone
+            ops.append(('read', rng.choice(RO_OPS)))
+    if rng.random() < 0.5:
+        ops.insert(rng.randrange(len(ops) + 1), ('read', rng.choice(RO_OPS)))
     ops.append(('get',))
-    return {'init': init, 'ops': ops}
+    return {'init': init, 'ops': ops, 'child': rng.random() < 0.6}
+
+
+RO_OPS = ['ontology.validate', 'ontology.generate_xml', 'event_type.validate', 'event_type.generate_relax_ng', 'event_type.__eq__',
+          'ontology.__eq__', 'get_hashed_properties-copy-mutated', 'event_type.get_properties', 'child.validate']
+
+
+def read_only(o, et, what):
+    import copy
+    if what == 'ontology.validate':
+        o.validate()
+    elif what == 'ontology.generate_xml':
+        o.generate_xml()
+    elif what == 'event_type.validate':
+        et.validate()
+    elif what == 'event_type.generate_relax_ng':
+        et.generate_relax_ng(o)
+    elif what == 'event_type.__eq__':
+        et == et
+    elif what == 'ontology.__eq__':
+        o == o
+    elif what == 'get_hashed_properties-copy-mutated':
+        dict(et.get_hashed_properties()).clear()
+    elif what == 'event_type.get_properties':
+        list(et.get_properties().items())
+    elif what == 'child.validate':
+        if 'tb' in o.get_event_type_names():
+            o.get_event_type('tb').validate()
 
 
 def run_memo_impl(case):
@@ -181,10 +258,24 @@ def run_memo_impl(case):
         p = et.create_property(n, 'o').make_optional()
         if m:
             p.make_hashed()
+    if case.get('child'):
+        # ta is also the parent of another event type (the parent definition maps the hashed properties of ta)
+        try:
+            tb = o.create_event_type('tb')
+            for n in ('p', 'q', 'r'):
+                tb.create_property(n, 'o').make_optional()
+            tb.make_child('part of', et.make_parent('contains', tb))
+        except Exception:
+            pass
     trace, hashes = [], []
     for op in case['ops']:
         try:
-            if op[0] == 'get':
+            if op[0] == 'read':
+                try:
+                    read_only(o, et, op[1])
+                except Exception:
+                    pass          # e.g. the ontology is not valid at this point of the history
+            elif op[0] == 'get':
                 trace.append(list(et.get_hashed_properties().keys()))
                 ev = EDXMLEvent({n: ['v'] for n in et.get_properties()}, 'ta', '/s/')
                 log = []
@@ -241,8 +332,9 @@ def memo_term(case, res):
             ops.append(C('SetMerge', op[1], op[2]))
         elif op[0] == 'add':
             ops.append(C('AddProp', op[1], op[2]))
-        else:
+        elif op[0] == 'del':
             ops.append(C('DelProp', op[1]))
+        # 'read' operations are no operations of the model: they must not change anything
     return coq(([(n, m) for n, m in case['init']], ops, res['trace']))
 
 
